@@ -248,7 +248,8 @@ def run_perm(v, case, env, exp_calls, scratch, desc):
 
 
 def run_case(desc):
-    case = mapgen.case_from_seed(desc["seed"], desc["i"], allow_autogen=desc["i"] % 2 == 1, allow_renames=desc["i"] % 3 == 0)
+    case = mapgen.case_from_seed(desc["seed"], desc["i"], allow_autogen=desc["i"] % 2 == 1, allow_renames=desc["i"] % 3 == 0,
+                                 allow_int_arrays=desc["i"] % 4 == 1)
     v = V()
     env, exp_calls = mapgen.oracle(case)
     gens = max(len(c) for c in exp_calls.values())
